@@ -258,7 +258,8 @@ fn game_json_from_valve_json(v: &Value) -> Value {
 /// (module-level entry, protocol-level entry) for a definition.
 fn paths(id: &'static str, game: &Game) -> (Option<Entry>, Option<Entry>) {
     // modules are matched by id, else by the game's full name (ut2004 <-> unrealtournament2004)
-    let module_valve = VALVE_GAMES.iter().position(|r| r.module == id || r.name == game.name).map(Entry::ValveGame);
+    // battalion1944 has a hand-written module (rule overrides) on top of the Valve protocol
+    let module_valve = if id == "battalion1944" { Some(Entry::Battalion) } else { VALVE_GAMES.iter().position(|r| r.module == id || r.name == game.name).map(Entry::ValveGame) };
     match &game.protocol {
         Protocol::Valve(engine) => {
             let gs: GatheringSettings = game.request_settings.clone().into();
@@ -484,7 +485,8 @@ impl Prop for C14 {
         }
         // (b) the game's dedicated module
         if let Some(e) = module_entry {
-            let is_valve_module = matches!(e, Entry::ValveGame(_));
+            let is_valve_module = matches!(e, Entry::ValveGame(_) | Entry::Battalion);
+            let overrides = matches!(e, Entry::Battalion);
             let rb = run_path(e);
             let mut ob = observe(&rb, eco);
             out.absorb(&rb.world);
@@ -500,7 +502,10 @@ impl Prop for C14 {
                         // the per-game view of the protocol path's response, field by field (not through the
                         // library's own conversion, which is part of what is being compared)
                         let conv = game_json_from_valve_json(spec);
-                        if let Some((p, e2, o2)) = json_diff(&conv, &serde_json::to_value(g).unwrap()) {
+                        // (the Battalion 1944 module rewrites fields from its rules: C07 owns those values)
+                        if overrides {
+                            out.probe("module_with_overrides_compared_by_outcome_and_requests");
+                        } else if let Some((p, e2, o2)) = json_diff(&conv, &serde_json::to_value(g).unwrap()) {
                             out.violate(Violation::new(format!("{id}|module|game-response"), format!("module vs protocol: per-game response differs at {p}"), e2, o2));
                         }
                     }
